@@ -11,6 +11,7 @@ CONSTANTS
   OMSEQ <- NoSeq
   VSHIFT = 0
   MAXFIX = FALSE
+  NANV <- Neg1
   EMITSTEPS = FALSE
 INVARIANT NoBad
 INVARIANT ShapeOK
